@@ -57,7 +57,7 @@ def run(ctx):
     ctx.ob("C36.D2-guards-dominate-result", cname(f, None, "a single document is returned unchanged"), bool(single), "" if single else "single-document case changed", where=where(f, f.node))
     # D3
     c = repo.func(CO, "ConsolidatorBase.consume_stream_datum")
-    body = [A.norm(s) for s in c.node.body if not (isinstance(s, ast.Expr) and isinstance(s.value, ast.Constant))]
+    body = [A.norm(s) for s in A.body(c.node)]
     want = ["self._num_rows += doc['indices']['stop'] - doc['indices']['start']", "new_seqnums = range(doc['seq_nums']['start'], doc['seq_nums']['stop'])",
             "new_indices = range(doc['indices']['start'], doc['indices']['stop'])", "self._seqnums_to_indices_map.update(dict(zip(new_seqnums, new_indices)))"]
     ok = body == want
